@@ -89,7 +89,7 @@ def _corpus():
             if text != "enum, bind(c)":
                 out.append({"std": "f2003", "text": "subroutine zz(u)\n" + text +
                             "\nend subroutine zz\n"})
-        for grp in zoo.SPEC_GROUPS:
+        for grp in zoo.SPEC_GROUPS + zoo.USE_GROUPS:
             out.append({"std": "f2003", "text": "subroutine zz(u)\n" + "\n".join(grp) +
                         "\nend subroutine zz\n"})
         for text in zoo.EXEC + zoo.EXEC_F08:
